@@ -2020,6 +2020,20 @@ func (a *Agent) handleStreamOpen(peerID identity.AgentID, frame *protocol.Frame)
 			Payload:  errPayload.Encode(),
 		}
 		a.peerMgr.SendToPeer(peerID, errFrame)
+		return
+	}
+
+	// The upstream peer may have disconnected while the open was being passed
+	// on: its cleanup has then already dropped the relay entry (and the reset
+	// it sent downstream went out before the open). Nobody would ever close
+	// the stream the next hop is about to create, so take it back.
+	if a.tcpRelay.LookupDownstream(downstreamID) != relay {
+		reset := &protocol.StreamReset{ErrorCode: protocol.ErrHostUnreachable}
+		a.peerMgr.SendToPeer(nextHop, &protocol.Frame{
+			Type:     protocol.FrameStreamReset,
+			StreamID: downstreamID,
+			Payload:  reset.Encode(),
+		})
 	}
 }
 
